@@ -50,7 +50,9 @@ def stated(kind, bits, t, m):
 
 def asserted(kind, bits, t, m):
   """The region in which design-time populations (23 680 issuers) showed no miss."""
-  if not stated(kind, bits, t, m) or 2 * m * t < 7 * bits:
+  # m*t >= 4*bits: at 3.5*bits the common-suffix check still misses about 1 issuer in 60 when m*t exceeds
+  # 3.5*bits by less than 0.5% (t = 39, 23 signatures on 256-bit curves), see DESIGN.md C08
+  if not stated(kind, bits, t, m) or m * t < 4 * bits:
     return False
   if kind == 'gen':
     return t >= 16 and m >= 24
@@ -89,6 +91,13 @@ def _build(desc, weak_nonces, weak_ct, mat, hlen):
     oi = eg.Issuer(oc, 1 + mat.below(on - 1))
     for k in eg.nonces_uniform(mat, on, 1 + desc['other'] % 3):
       items.append(('other', oi.sig(k, eg.random_hash(mat, 32))))
+  if desc.get('samekey'):
+    # the same private key used on a second curve, also with biased nonces: both must be recovered
+    oc = [c for c in CURVES7 if c != weak_ct and eg.ref(c).n.bit_length() <= 256][desc['samekey'] % 2]
+    on = eg.ref(oc).n
+    twin = eg.Issuer(oc, d % on or 1)
+    for k in eg.nonces_msb(mat, on, 64, 16):
+      items.append(('twin', twin.sig(k, eg.random_hash(mat, 32))))
   for _ in range(desc.get('dups', 0)):
     o, s = items[mat.below(len(items))]
     c = type(s)()
@@ -106,6 +115,8 @@ def _build(desc, weak_nonces, weak_ct, mat, hlen):
       else:
         merged.append(rest.pop(0))
     items = merged
+  if desc.get('samekey'):
+    weak.twin = twin
   return weak, [s for _, s in items], [o for o, _ in items]
 
 
@@ -122,8 +133,11 @@ def _judge(check_cls, weak, sigs, owners, clause, ctx):
         missed += 1
       elif _dlog(s) != weak.d:
         wrong += 1
+    elif o == 'twin' and check_cls is sc.CheckNonceMSB:
+      if not e[0] or _dlog(s) != weak.twin.d:
+        raise Violation(clause + ':same-key-on-second-curve-missed', entry=e, **ctx)
   # the other issuers keep the verdict they get when checked alone
-  for who in ('healthy', 'other'):
+  for who in ('healthy', 'other'):   # ('twin' is a weak issuer of its own and judged above)
     idx = [i for i, o in enumerate(owners) if o == who]
     if not idx:
       continue
@@ -188,15 +202,15 @@ def strat_bias(tier):
   @st.composite
   def s(draw):
     region = draw(st.sampled_from(['A', 'A', 'A', 'A', 'B', 'K']))
-    if region == 'A':      # 16 <= t <= 48, ratio >= 3.5
+    if region == 'A':      # 16 <= t <= 48, ratio >= 4
       t = draw(st.integers(16, 48))
-      ratio10 = draw(st.sampled_from([35, 35, 36, 40, 50]))
+      ratio10 = draw(st.sampled_from([40, 40, 41, 45, 50]))
     elif region == 'B':    # 48 < t <= 96 on 256-bit curves (others fall into the finding region)
       t = draw(st.integers(49, 96))
-      ratio10 = draw(st.sampled_from([35, 40, 50]))
+      ratio10 = draw(st.sampled_from([40, 45, 50]))
     else:                  # stated but not asserted: margin band and large bias
       t = draw(st.one_of(st.integers(16, 48), st.integers(49, 200)))
-      ratio10 = draw(st.sampled_from([20, 22, 25, 30, 34]))
+      ratio10 = draw(st.sampled_from([20, 22, 25, 30, 35, 38]))
     c = draw(curve)
     if tier == 'quick' and t < 24 and c in (2, 3, 5, 6):
       t = draw(st.integers(24, 48))   # bound the lattice dimension in the quick tier
@@ -205,7 +219,8 @@ def strat_bias(tier):
         'ratio10': ratio10, 'sub': draw(st.integers(0, 2)), 'hsel': draw(st.integers(0, 4)),
         'healthy': draw(st.sampled_from([0, 1, 3, 5])), 'other': draw(st.sampled_from([0, 0, 1, 2, 7])),
         'dups': draw(st.sampled_from([0, 0, 1, 3])), 'interleave': draw(st.booleans()),
-        'm8': region != 'K' or draw(st.booleans())}
+        'm8': region != 'K' or draw(st.booleans()),
+        'samekey': draw(st.sampled_from([0, 0, 0, 1, 2, 3, 4]))}
   return s()
 
 
